@@ -173,7 +173,7 @@ PROPS = {
     },
     "C10": {
         "families": [("timers", 900, 25000), ("restart", 300, 8000), ("mailbox", 200, 6000), ("faults", 200, 6000)],
-        "monitors": [],
+        "monitors": ["C10"],
         "theorems": ["C10_not_early", "C10_sleep_is_a_full_period", "C10_timers_die_with_the_actor", "C10_none_after_death"],
         "nontrivial": nt_c10,
         "rule": "cases generated from (family, VERIF_SEED, index): 0-4 timers of mixed kinds (interval, interval_with, delayed_send, delayed_exec) with periods 1..50 virtual ms, both mailbox kinds, termination at any virtual time by any cause, expiries racing with runnable tasks on the virtual clock; non-trivial = a timer fired at least twice or the actor ended while a timer task existed; distinct = distinct case JSON",
